@@ -58,6 +58,27 @@ def registry():
     return [dict(engine='kani', name=u, props=d['props'], path=None, title=d['title']) for u, d in HARNESSES.items() if d['harnesses']]
 
 
+def input_hash(crates, hs):
+    import hashlib
+    h = hashlib.sha256()
+    for c in crates:
+        for base in (os.path.join(REPO, c), os.path.join(VERIF, 'kani', c)):
+            for root, dirs, files in os.walk(base):
+                dirs[:] = sorted(d for d in dirs if d != 'target')
+                for fn in sorted(files):
+                    if fn.endswith(('.rs', '.toml')):
+                        p = os.path.join(root, fn)
+                        h.update(os.path.relpath(p, base).encode())
+                        with open(p, 'rb') as f:
+                            h.update(f.read())
+    with open(os.path.join(REPO, 'Cargo.lock'), 'rb') as f:
+        h.update(f.read())
+    h.update(repr(sorted((x['name'], x['timeout']) for x in hs)).encode())
+    with open(os.path.abspath(__file__), 'rb') as f:
+        h.update(f.read())
+    return h.hexdigest()
+
+
 def make_scratch(crates):
     tmp = tempfile.mkdtemp(prefix='verif-kani-', dir='/tmp')
     for c in crates:
@@ -126,7 +147,8 @@ def parse_kani_output(text):
 def run_unit(u, tier, workdir, prop=None):
     t0 = time.time()
     unit = HARNESSES[u['name']]
-    hs = [h for h in unit['harnesses'] if (tier == 'thorough' or h['tier'] == 'quick') and (prop is None or prop in h['props'])]
+    # all harnesses of the unit for this tier are run (and cached) together; the caller filters failures by property
+    hs = [h for h in unit['harnesses'] if (tier == 'thorough' or h['tier'] == 'quick')]
     res = dict(unit=u['name'], title=unit['title'], status='undecided', failures=[], functions=[], notes=[], harnesses=[h['name'] for h in hs],
                trusted=['AEAD (chacha20poly1305) replaced by precondition-checking stubs with nondeterministic verdict',
                         'Kani stubs for OS randomness'], samples=[], bounded_notes=[])
@@ -136,21 +158,51 @@ def run_unit(u, tier, workdir, prop=None):
         res['wall_s'] = 0.0
         return res
     crates = sorted(set(h['crate'] for h in hs))
+    # Result cache keyed by the SHA-256 of everything the verdict depends on (crate sources from /repo's working tree,
+    # harness sources, harness selection).  A hit means byte-identical inputs; VERIF_NO_CACHE=1 disables it.
+    key = input_hash(crates, hs)
+    res['input_sha256'] = key
+    cpath = os.path.join(VERIF, 'work', 'cache', 'kani-%s-%s.json' % (u['name'], key[:32]))
+    if os.path.exists(cpath) and not os.environ.get('VERIF_NO_CACHE'):
+        with open(cpath) as f:
+            cached = json.load(f)
+        cached['cache'] = 'hit (inputs byte-identical to the run of %s, which took %.0f s)' % (cached.get('ran_at'), cached.get('wall_s', 0))
+        cached['wall_s_original'] = cached.get('wall_s')
+        cached['wall_s'] = time.time() - t0
+        return cached
     tmp = make_scratch(crates)
     try:
-        cmd = ['cargo', 'kani', '-p', crates[0], '-Z', 'stubbing', '-Z', 'function-contracts', '-Z', 'unstable-options',
-               '--harness-timeout', '%ds' % max(h['timeout'] for h in hs), '--output-format', 'regular', '--exact']
-        for h in hs:
-            cmd += ['--harness', '%s::verif_kani::%s' % (h['module'], h['name'])]
-        res['checker_cmd'] = 'cd <scratch copy of %s> && CARGO_NET_OFFLINE=true %s' % ('+'.join(crates), ' '.join(cmd))
+        base = ['cargo', 'kani', '-p', crates[0], '-Z', 'stubbing', '-Z', 'function-contracts', '-Z', 'unstable-options',
+                '--output-format', 'regular', '--exact']
+        res['checker_cmd'] = 'cd <scratch copy of %s> && CARGO_NET_OFFLINE=true %s --harness <each of %s>' % (
+            '+'.join(crates), ' '.join(base), ','.join(h['name'] for h in hs))
         env = dict(os.environ, CARGO_NET_OFFLINE='true', CARGO_TARGET_DIR=os.path.join(tmp, 'target'))
-        try:
-            p = subprocess.run(cmd, cwd=tmp, env=env, stdout=subprocess.PIPE, stderr=subprocess.STDOUT, text=True,
-                               timeout=sum(h['timeout'] for h in hs) + 600)
-            out = p.stdout
-        except subprocess.TimeoutExpired as e:
-            out = (e.stdout or b'').decode(errors='replace') if isinstance(e.stdout, bytes) else (e.stdout or '')
-            res['notes'].append('cargo kani timed out')
+        # 1. build once
+        pb = subprocess.run([x for x in base if x != '--exact'] + ['--only-codegen'], cwd=tmp, env=env, stdout=subprocess.PIPE, stderr=subprocess.STDOUT, text=True, timeout=1800)
+        out = pb.stdout
+        # 2. one process per harness, in parallel (each CBMC run is single-threaded)
+        import concurrent.futures as cf
+
+        def limit_mem():
+            # CBMC can exhaust memory on blown-up formulas; never let one harness take the machine down
+            import resource
+            lim = int(os.environ.get('VERIF_KANI_MEM_GB', '14')) * (1 << 30)
+            resource.setrlimit(resource.RLIMIT_AS, (lim, lim))
+
+        def one(h):
+            c = base + ['--harness-timeout', '%ds' % h['timeout'], '--harness', '%s::verif_kani::%s' % (h['module'], h['name'])]
+            try:
+                p = subprocess.run(c, cwd=tmp, env=env, stdout=subprocess.PIPE, stderr=subprocess.STDOUT, text=True, timeout=h['timeout'] + 300,
+                                   preexec_fn=limit_mem)
+                return p.stdout
+            except subprocess.TimeoutExpired as e:
+                o = e.stdout.decode(errors='replace') if isinstance(e.stdout, bytes) else (e.stdout or '')
+                return o + '\nTIMEOUT %s\n' % h['name']
+
+        if pb.returncode == 0:
+            with cf.ThreadPoolExecutor(max_workers=int(os.environ.get('VERIF_KANI_JOBS', '6'))) as ex:
+                for o in ex.map(one, hs):
+                    out += '\n' + o
         os.makedirs(workdir, exist_ok=True)
         with open(os.path.join(workdir, 'kani_output.txt'), 'w') as f:
             f.write(out)
@@ -162,7 +214,7 @@ def run_unit(u, tier, workdir, prop=None):
         for h in hs:
             ph = parsed.get(h['name'])
             row = dict(function='verif_kani::' + h['name'], mode='kani harness', success=False, smt_ms=None, rlimit=None,
-                       obligations=0, bounded=(h['kind'] != 'complete'))
+                       obligations=0, bounded=(h['kind'] != 'complete'), props=h['props'])
             if ph is None or ph.get('status') is None:
                 undec = True
                 res['notes'].append('harness %s produced no verdict (timeout / resource limit / compile error)' % h['name'])
@@ -206,6 +258,12 @@ def run_unit(u, tier, workdir, prop=None):
         shutil.rmtree(tmp, ignore_errors=True)
     res['wall_s'] = time.time() - t0
     res['woven_functions'] = [dict(qual=f, file=unit['crate'], line=0, contracted=True, safety=unit['props']) for f in unit['functions']]
+    res['ran_at'] = time.strftime('%Y-%m-%dT%H:%M:%S')
+    res['cache'] = 'miss'
+    if res['status'] in ('verified', 'failed'):
+        os.makedirs(os.path.dirname(cpath), exist_ok=True)
+        with open(cpath, 'w') as f:
+            json.dump(res, f)
     return res
 
 
